@@ -552,6 +552,13 @@ void harness(void) { g_made = 0; N = nondet_ulong(); kSharedCount = nondet_ulong
             except ExtractionBreak as e:
                 ctx.breaks.append(str(e))
     wrappers()
+    # other properties run the part of this unit that is their business (the unit is written for C13)
+    SEL = {'C12': r'coro/(PromiseType\.|PromiseTypeDeleter|Destroy\.|Transfer)',                       # coroutine Task: nothing before start, started by co_await / Here
+           'C05': r'coro/(OnAwaiter|AwaitOn|MultiAwaitOn|wrapper\.AwaitOn|Yield|CurrentAwaiter)',         # resumes where told
+           'C06': r'coro/(AwaitSingleAwaiter\.shared1|SetCallbacks|wrapper\.)',                         # shared sources: a node per shared handle, const read
+           'C03': r'coro/(PromiseType\.(Call|Drop)|PromiseTypeDeleter|Destroy\.)'}                      # the coroutine frame is destroyed exactly once
+    if getattr(ctx, 'prop', None) in SEL:
+        out = [j for j in out if re.match(SEL[ctx.prop], j.name)]
     return out
 
 
